@@ -15,17 +15,23 @@ Qed.
 Lemma find_tx_app_some l l2 id t : find_tx l id = Some t -> find_tx (l ++ l2) id = Some t.
 Proof. unfold find_tx. induction l as [|x r IH]; simpl; [discriminate|]. destruct (t_id x =? id); [auto|exact IH]. Qed.
 
-(* shape of a successful revert *)
-Theorem C15_shape : forall f now s id force at_eff s1 p,
-  run_input f now s (IRevert id force at_eff) = Done s1 p ->
+Lemma mget_aset_same (m : meta) k v : mget (aset String.eqb m k v) k = Some v.
+Proof. unfold mget. induction m as [|[k' v'] r IH]; simpl; [rewrite String.eqb_refl; reflexivity|].
+  destruct (String.eqb k' k) eqn:E; simpl; rewrite E; [reflexivity | exact IH]. Qed.
+Lemma mget_mmerge_mark (m : meta) k v : mget (mmerge m [(k, v)]) k = Some v.
+Proof. unfold mmerge. simpl. apply mget_aset_same. Qed.
+
+(* shape of a successful revert: the caller's metadata with the revert mark merged over it *)
+Theorem C15_shape : forall f now s id force at_eff rmeta s1 p,
+  run_input f now s (IRevert id force at_eff rmeta) = Done s1 p ->
   exists t r, find_tx (s_txs s) id = Some t /\ t_rev t = None /\
     p = PRevert (tx_with t (t_meta t) now (Some now)) r /\
     t_postings r = reverse_postings (t_postings t) /\
-    t_meta r = [(reverts_key, string_of_Z id)] /\
+    t_meta r = mmerge rmeta [(reverts_key, string_of_Z id)] /\ mget (t_meta r) reverts_key = Some (string_of_Z id) /\
     t_ts r = (if at_eff then t_ts t else now) /\
     s_txs s1 = map_tx (s_txs s) (t_id t) (fun x => tx_with x (t_meta x) now (Some now)) ++ [r].
 Proof.
-  intros f now s id force at_eff s1 p. simpl.
+  intros f now s id force at_eff rmeta s1 p. simpl.
   destruct (find_tx (s_txs s) id) as [t|] eqn:F; [|discriminate].
   destruct (t_rev t) eqn:R; [discriminate|].
   match goal with |- context [match ?c with RCOk => _ | RCInsufficient => _ | RCPanic => _ end] => destruct c end; try discriminate.
@@ -33,6 +39,7 @@ Proof.
   intros H; inversion H; subst; clear H.
   apply commit_some in E. destruct E as (Htx & Hps & _ & _ & Hmd & _ & Hts & _).
   exists t, r. repeat split; try assumption; try reflexivity.
+  rewrite Hmd. apply mget_mmerge_mark.
 Qed.
 Print Assumptions C15_shape.
 
@@ -44,12 +51,12 @@ Proof. intros ps. split; [reflexivity|]. unfold reverse_postings. rewrite rev_le
 Print Assumptions C15_reverse_postings.
 
 (* once reverted, a second revert fails with already-reverted and no effect *)
-Theorem C15_once : forall f now s id force at_eff s1 p now' force' at_eff',
-  run_input f now s (IRevert id force at_eff) = Done s1 p ->
-  run_input f now' s1 (IRevert id force' at_eff') = Failed s1 EAlreadyReverted.
+Theorem C15_once : forall f now s id force at_eff rmeta s1 p now' force' at_eff' rmeta',
+  run_input f now s (IRevert id force at_eff rmeta) = Done s1 p ->
+  run_input f now' s1 (IRevert id force' at_eff' rmeta') = Failed s1 EAlreadyReverted.
 Proof.
-  intros f now s id force at_eff s1 p now' force' at_eff' H.
-  destruct (C15_shape _ _ _ _ _ _ _ _ H) as (t & r & F & _ & _ & _ & _ & _ & Htx).
+  intros f now s id force at_eff rmeta s1 p now' force' at_eff' rmeta' H.
+  destruct (C15_shape _ _ _ _ _ _ _ _ _ H) as (t & r & F & _ & _ & _ & _ & _ & _ & Htx).
   simpl. rewrite Htx.
   assert (Hid : t_id t = id) by (eapply find_tx_id; exact F).
   rewrite (find_tx_app_some _ [r] id (tx_with t (t_meta t) now (Some now))).
@@ -82,8 +89,8 @@ Example C15_example :
   let p1 := {| p_src := "world"; p_dst := "bob"; p_asset := "USD"; p_amt := 5 |} in
   let p2 := {| p_src := "bob"; p_dst := "alice"; p_asset := "USD"; p_amt := 2 |} in
   let h := [(1, {| o_in := ICreate [p1; p2] (Some 0) "" [] [] false; o_ik := ""; o_dry := false |});
-            (9, {| o_in := IRevert 1 false true; o_ik := ""; o_dry := false |});
-            (10, {| o_in := IRevert 1 true false; o_ik := ""; o_dry := false |})] in
+            (9, {| o_in := IRevert 1 false true []; o_ik := ""; o_dry := false |});
+            (10, {| o_in := IRevert 1 true false []; o_ik := ""; o_dry := false |})] in
   map (fun t => (t_postings t, t_ts t, t_rev t)) (s_txs (run f h)) =
     [([p1; p2], 0, Some 9);
      ([{| p_src := "alice"; p_dst := "bob"; p_asset := "USD"; p_amt := 2 |}; {| p_src := "bob"; p_dst := "world"; p_asset := "USD"; p_amt := 5 |}], 0, None)].
